@@ -87,6 +87,21 @@ type obs struct {
 	items map[string]*gen.Item
 }
 
+// fuel: lexer calls plus actions one parse may make before the driver calls it a loop (the default
+// 5000 is far above what inputs of up to 300 tokens need; the two very deep inputs need more).
+func (o *obs) fuel() int {
+	f := 0
+	for _, in := range o.inputs {
+		if 5*len(in) > f {
+			f = 5 * len(in)
+		}
+	}
+	if f < 5000 {
+		return 0
+	}
+	return f
+}
+
 // allInputs enumerates every string over the terminals' characters and '?'
 // up to length k, shortest first.
 func allInputs(d *gen.Decorated, k int) []string {
@@ -285,7 +300,7 @@ func (o *obs) predict(m *lrm.Machine, in string) rt.Result {
 				la = o.vw.RefToSym[toks[pos]]
 			}
 		}
-		next, sr := m.Step(c, la, 4000)
+		next, sr := m.Step(c, la, 4000+2*len(toks))
 		for _, ev := range sr.Events {
 			switch ev.Kind {
 			case 's':
@@ -367,7 +382,7 @@ func genPhase(w *Worker, id string) {
 		}
 		corpus = append(corpus, bare...)
 	}
-	if id == "C07" || id == "C17" || id == "C08" {
+	if id == "C07" || id == "C17" || id == "C08" || id == "C01" {
 		// the family grammars once more with a nested parse inside every action: what the outer
 		// parse computes, reduces and traces must not change
 		var nested []*genCase
@@ -458,7 +473,11 @@ func genBatch(w *Worker, id string, cases []*genCase, name string) {
 		for _, in := range o.inputs {
 			have[in] = true
 		}
-		for _, sent := range g.CoverSentences(16) {
+		maxCover := 16
+		if strings.HasPrefix(c.Origin, "family:") {
+			maxCover = 300 // rules of several hundred symbols are reduced at least once, too
+		}
+		for _, sent := range g.CoverSentences(maxCover) {
 			var b []byte
 			for _, t := range sent {
 				b = append(b, d.Chars[g.Names[t]])
@@ -483,6 +502,13 @@ func genBatch(w *Worker, id string, cases []*genCase, name string) {
 				}
 			}
 		}
+		// two inputs that need a parser stack of more than 10 000 entries (a driver with a fixed limit shows)
+		switch c.Origin {
+		case "family:right-rec-empty-base":
+			o.inputs = append(o.inputs, strings.Repeat(string(d.Chars["TA"]), 12000))
+		case "family:nested-optional":
+			o.inputs = append(o.inputs, strings.Repeat("(", 6000)+strings.Repeat(")", 6000))
+		}
 		for vi, v := range variants {
 			pkg := fmt.Sprintf("p%d_%d", i, vi)
 			o.items[v] = b.Add(pkg, v, d)
@@ -502,7 +528,7 @@ func genBatch(w *Worker, id string, cases []*genCase, name string) {
 				continue
 			}
 			idx[it.Pkg] = o
-			jobs = append(jobs, gen.Job{Pkg: it.Pkg, Inputs: o.inputs, Trace: id == "C17", NStates: o.vw.NStates, NSyms: len(o.vw.V.G.Symbols)})
+			jobs = append(jobs, gen.Job{Pkg: it.Pkg, Inputs: o.inputs, Trace: id == "C17", NStates: o.vw.NStates, NSyms: len(o.vw.V.G.Symbols), Fuel: o.fuel()})
 			o.runs[v] = make([]*rt.Result, 0, len(o.inputs))
 		}
 	}
@@ -572,8 +598,44 @@ func genJudge(w *Worker, id string, o *obs, variants []string) {
 		firstBad int // index of the first token (end marker = len) that cannot continue a sentence; -1 if member
 	}
 	infos := make([]inInfo, len(o.inputs))
+	var longRef *lrm.Machine
 	for i, in := range o.inputs {
 		toks := o.toks(in)
+		if len(toks) > 400 {
+			// Earley is cubic: inputs of thousands of tokens (only given to conflict-free family grammars)
+			// are classified by the reference LR table, which for an LALR(1) grammar accepts exactly the
+			// sentences and reports the error before shifting the first bad token
+			if !o.tbl.ConflictFree {
+				infos[i].member, infos[i].firstBad = false, -2 // not judged
+				continue
+			}
+			if longRef == nil {
+				longRef = refMachine(o.g, o.tbl)
+			}
+			c := lrm.Config{St: []int{0}, Sym: []int{o.g.EOF()}}
+			fbLong := -1
+			for p := 0; p <= len(toks); p++ {
+				la := o.g.EOF()
+				if p < len(toks) {
+					la = toks[p]
+					if la < 0 {
+						fbLong = p
+						break
+					}
+				}
+				next, sr := longRef.Step(c, la, 4000+2*len(toks))
+				if sr.Out == lrm.Accepted {
+					break
+				}
+				if sr.Out != lrm.Shifted {
+					fbLong = p
+					break
+				}
+				c = next
+			}
+			infos[i].member, infos[i].firstBad = fbLong < 0, fbLong
+			continue
+		}
 		ch := e.Start()
 		fb := -1
 		for p, t := range toks {
@@ -813,7 +875,7 @@ func refRun(m *lrm.Machine, o *obs, in string) ([]int, lrm.Outcome) {
 				la = len(o.g.Names) + 1 // a symbol the reference table has no column for
 			}
 		}
-		next, sr := m.Step(c, la, 4000)
+		next, sr := m.Step(c, la, 4000+2*len(toks))
 		for _, ev := range sr.Events {
 			if ev.Kind == 'r' {
 				reds = append(reds, ev.Rule)
@@ -839,7 +901,7 @@ func refVerdict(m *lrm.Machine, o *obs, in string) lrm.Outcome {
 				return lrm.Rejected
 			}
 		}
-		next, sr := m.Step(c, la, 4000)
+		next, sr := m.Step(c, la, 4000+2*len(toks))
 		if sr.Out != lrm.Shifted {
 			return sr.Out
 		}
